@@ -192,6 +192,20 @@ def r17_4_cancel_every_state(repo: Repo, rep: Report):
     rechecks = [n for n in body_walk(run) if isinstance(n, (ast.Attribute, ast.Call)) and "self._cancel" in src(n) and popen and getattr(n, "lineno", 0) >= popen[0].lineno]
     ok = (not early) or (bool(records) and bool(rechecks))
     rep.check("R17.4", ok, m, early[0] if early else cancel, f"cancel(): `if not self.is_running(): return` {'records the request' if records else 'records nothing'}; worker {'re-checks' if rechecks else 'never re-checks'} after Popen(...)", "a shutdown sweep that runs between start() and Popen(...) is lost: the solver process is created afterwards and keeps running after shutdown returned")
+    # the only reason to give up early is that there is no running process; anything else (e.g. "already requested
+    # once") makes a later cancel - the worker's own clean-up at the time limit, a second shutdown - a no-op
+    for r in [r for r in body_walk(cancel) if isinstance(r, ast.Return)]:
+        gs = {g.replace(" ", "") for g in guard_set(m, r)}
+        okr = gs <= {"not(self.is_running())", "notself.is_running()"} and (r.value is None or src(r.value) in ("None", "False", "True"))
+        rep.check("R17.4", okr, m, r, f"cancel(): early return under {sorted(gs)}", "cancel() gives up for a reason other than `no running process`: once that reason holds, the process is never terminated by any later cancel (time limit, second shutdown), and result() may never return")
+    # the process is created inside the worker's try: a spawn failure (missing binary, EMFILE) must end up in the future
+    popen_all = [(mm_q, c) for mm_q, f_ in repo.functions("processes") for c in body_walk(f_) if isinstance(c, ast.Call) and call_name(c) == "Popen" and m.qual(c) == f"processes.{mm_q}"]
+    for q_, c in popen_all:
+        in_try = [a for a in m.ancestors(c) if isinstance(a, ast.Try) and any(c in list(ast.walk(b)) for b in a.body)]
+        okp = q_ == "PopenFuture.start.run" and any(t_.finalbody and any(isinstance(x, ast.Call) and last_attr(x) == "set_result" for fb in t_.finalbody for x in ast.walk(fb)) and any(h.type is not None and src(h.type) == "Exception" for h in t_.handlers) for t_ in in_try)
+        rep.check("R17.4", okp, m, c, f"processes.{q_}: Popen(...) inside the worker's try/except Exception/finally set_result", "a failure to spawn the solver escapes instead of resolving the future: the job is already registered, no thread will ever call set_result, and result() / shutdown(wait=True) hang")
+    if not popen_all:
+        raise AnalysisError("processes: Popen(...) call not found")
     # cancel terminates the whole tree then kills, and closes the pipes
     t = src(cancel)
     ok = "children(recursive=True)" in t and "process.terminate()" in t and "process.kill()" in t
